@@ -175,7 +175,7 @@ def pv_checks(plan, table, answer):
     return out
 
 
-def sessions_agree(model_ans, impl_ans):
+def sessions_agree(model_ans, impl_ans, scores=True):
     """Correspondence of the search model and the engine on what the properties determine: the board read-backs, and for
     every go the scores of the completed iterations of depth <= 3 (exact minimax values: independent of move order,
     killers, PV hints and the transposition table by theorem C08) on the common prefix of completed iterations (how many
@@ -195,7 +195,9 @@ def sessions_agree(model_ans, impl_ans):
             sa = {t.split(':')[1]: t.split(':')[2] for t in ta if t.startswith('D:') and t.split(':')[2] != '-' and 1 <= int(t.split(':')[1]) <= 3}
             sb = {t.split(':')[1]: t.split(':')[2] for t in tb if t.startswith('D:') and t.split(':')[2] != '-' and 1 <= int(t.split(':')[1]) <= 3}
             k = len(set(sa) & set(sb))
-            if any(sa[d] != sb[d] for d in set(sa) & set(sb)):
+            # scores are compared only for the properties that determine them (C08, C10, C11, C06); C07 / C09 / C16 speak about
+            # the number, legality and provenance of bestmove messages, the held position and the shape of the stream
+            if scores and any(sa[d] != sb[d] for d in set(sa) & set(sb)):
                 return False
             if sum(t.startswith('B:') for t in ta) != sum(t.startswith('B:') for t in tb):
                 return False
@@ -232,7 +234,7 @@ def deep_strict_stream(ctx, plans, table, n):
         plans.append(pl)
 
 
-def build_cases(ctx, plans, table):
+def build_cases(ctx, plans, table, scores=True):
     table.resolve()
     follow = [pl for pl in plans if getattr(pl, 'follow', False)]
     if follow:
@@ -255,7 +257,7 @@ def build_cases(ctx, plans, table):
             cases.append(Case(pl.request(), pl.stream, model=None, oracle=session_oracle(pl, table)))
         else:
             cases.append(Case(pl.request(), pl.stream, oracle=session_oracle(pl, table),
-                              agree=sessions_agree_strict if getattr(pl, 'strict', False) else sessions_agree))
+                              agree=sessions_agree_strict if getattr(pl, 'strict', False) else (sessions_agree if scores else (lambda m, i: sessions_agree(m, i, scores=False)))))
     return cases
 
 
@@ -1439,7 +1441,7 @@ ENGINE_ANCHORS = ['engine_core/src/engine/search.rs', 'engine_core/src/engine.rs
                   'engine_core/src/engine/zobrist_history.rs', 'uci/src/uci/console.rs', 'engine_app/src/main.rs']
 
 
-def make_prop(streams, binary_sessions=None, extra_post=None, minimax=False):
+def make_prop(streams, binary_sessions=None, extra_post=None, minimax=False, scores=True):
     state = {}
 
     def cases(ctx):
@@ -1447,7 +1449,7 @@ def make_prop(streams, binary_sessions=None, extra_post=None, minimax=False):
         for fn in streams:
             fn(ctx, plans, table)
         state['plans'], state['table'] = plans, table
-        return build_cases(ctx, plans, table)
+        return build_cases(ctx, plans, table, scores=scores)
 
     def post(ctx, cs, impl):
         vs = engine_post(state['plans'], state['table'])(ctx, cs, impl)
@@ -1473,7 +1475,7 @@ def register(PROPS):
                             lambda c, pl, t: promotion_stream(c, pl, t, c.scale(20, 400)),
                             lambda c, pl, t: pending_stream(c, pl, t, c.scale(12, 200)),
                             lambda c, pl, t: rejected_position_stream(c, pl, t, c.scale(15, 300))],
-                           binary_sessions=lambda c: c.scale(12, 300))
+                           binary_sessions=lambda c: c.scale(12, 300), scores=False)
     PROPS['C07'] = dict(modules=['Inkayaku.Props.C07', 'Inkayaku.Props.C07Final'], theorems=['Inkayaku.C07.' + n for n in 'go_exactly_one_bestmove bestmove_legal every_iteration_legal root_move_from_buffer nolegal_null depth1_not_interrupted depth1_completes go_answers_legal_move genPseudo_length_lt'.split()] + ['Inkayaku.Search.boardLaws'], cases=c07c, post=c07p, anchors=ENGINE_ANCHORS)
     c08c, c08p = make_prop([lambda c, pl, t: depth_stream(c, pl, t, c.scale(150, 4000)), mate_stream,
                             lambda c, pl, t: mate_corpus_stream(c, pl, t, c.scale(120, 1000)),
@@ -1487,14 +1489,14 @@ def register(PROPS):
     PROPS['C08'] = dict(modules=['Inkayaku.Props.C08', 'Inkayaku.Props.C08Sim', 'Inkayaku.Props.C08Transp', 'Inkayaku.Props.C16Pv'], theorems=['Inkayaku.C08Transp.' + n for n in 'transp13 transp22 sameDraft_le3 hashInj_of_noCollision_le3 go_eq_spec_le3'.split()] + ['Inkayaku.C08Sim.' + n for n in 'quiescence_sim repetition_inert fuel_adequate negamax_node_sim negamax_eq_spec go_eq_spec go_eq_spec_le2'.split()] + ['Inkayaku.C16Pv.mate_pv'] + ['Inkayaku.C08.' + n for n in 'quiescence_clamp quiescence_ok ab_ok root_exact order_irrelevant best_move_optimal ab_tt_ok root_exact_tt engine_order_is_permutation search_eq_mm specValue_eq_mm specValue_order_irrelevant specBestMoves_eq_optimal search_best_move_optimal mate_found mate_real'.split()], cases=c08c, post=c08p, anchors=ENGINE_ANCHORS)
     c09c, c09p = make_prop([lambda c, pl, t: interrupt_stream(c, pl, t, c.scale(24, 300), c.scale(90, 250)),
                             lambda c, pl, t: pending_stream(c, pl, t, c.scale(20, 300)),
-                            lambda c, pl, t: terminal_after_search_stream(c, pl, t, c.scale(15, 300))])
+                            lambda c, pl, t: terminal_after_search_stream(c, pl, t, c.scale(15, 300))], scores=False)
     PROPS['C09'] = dict(modules=['Inkayaku.Props.C09'], theorems=['Inkayaku.C09.' + n for n in 'quiescence_board negamax_board deepen_board go_preserves_board go_preserves_inv session_preserves_board next_go_searches_same_position go_one_bestmove bestmove_from_last_completed_iteration bestmove_none_iff_no_completed_iteration'.split()] + ['Inkayaku.Search.boardLaws', 'Inkayaku.Search.unmake_make_of_generated', 'Inkayaku.Search.make_wf', 'Inkayaku.BoardCongr.make_congr', 'Inkayaku.BoardCongr.genPseudo_congr'], cases=c09c, post=c09p, anchors=ENGINE_ANCHORS)
     c16c, c16p = make_prop([lambda c, pl, t: multi_cycle_stream(c, pl, t, c.scale(60, 1500)),
                             lambda c, pl, t: terminal_after_search_stream(c, pl, t, c.scale(30, 600)),
                             lambda c, pl, t: promotion_stream(c, pl, t, c.scale(30, 600)),
                             lambda c, pl, t: limits_stream(c, pl, t, c.scale(40, 800)),
                             lambda c, pl, t: pending_stream(c, pl, t, c.scale(30, 500))],
-                           binary_sessions=lambda c: c.scale(25, 600))
+                           binary_sessions=lambda c: c.scale(25, 600), scores=False)
     c16all = lambda ctx: c16c(ctx) + console_cases(ctx, ctx.scale(1500, 40000))
     c16post = lambda ctx, cs, impl: c16p(ctx, cs, impl) + console_post(ctx, cs, impl) + app_sessions(ctx, ctx.scale(30, 600))
     PROPS['C16'] = dict(modules=['Inkayaku.Props.C16', 'Inkayaku.Props.C16Console', 'Inkayaku.Props.C16Pv', 'Inkayaku.Props.C16Wf', 'Inkayaku.Props.C16App'],
@@ -1524,8 +1526,10 @@ def register(PROPS):
                   'C08': (['Ordering', 'Heuristic'], ['rs_killer_get_eq', 'rs_killer_put_eq', 'rs_sort_key_eq', 'rs_is_checkmate_eq', 'rs_evaluate_eq']),
                   'C11': (['Heuristic'], ['rs_score_from_value_eq', 'rs_evaluate_eq', 'rs_is_checkmate_eq']),
                   'C12': (['Fen', 'FenDecode', 'FenFromStr', 'FenRoundtrip', 'FenWrite'],
-                          'rs_validate_rank_eq rs_fen_decode_eq rs_fen_decode_fromFenString rs_parse_player_states_eq rs_validate_ranks_eq rs_fen_from_str_eq rs_fen_from_str_startpos rs_fen_read_eq rs_fen_roundtrip_read rs_get_colored_piece_eq'.split()),
+                          'rs_validate_rank_eq rs_fen_decode_eq rs_fen_decode_fromFenString rs_parse_player_states_eq rs_validate_ranks_eq rs_fen_from_str_eq rs_fen_from_str_startpos rs_fen_read_eq rs_fen_roundtrip_read rs_get_colored_piece_eq rs_fen_write_eq rs_fen_roundtrip'.split()),
                   'C15': (['Square'], ['rs_from_chars_eq']),
+                  'C17': (['PgnBuffer', 'PgnBytes', 'PgnLoops', 'PgnTags', 'PgnMoves', 'PgnIter', 'PgnTotal'],
+                          'rs_ensure_buffer_eq rs_read_token_sim rs_read_until_sim rs_pgn_next_eq rs_pgn_chunk_independent rs_pgn_next_total rs_pgn_reader_correct'.split()),
                   'C18': (['Table'], 'rs_table_put_eq rs_table_put_no_panic rs_table_get_eq rs_table_len_eq rs_table_clear_eq rs_table_new_eq rs_table_run_eq rs_table_run_spec'.split()),
                   'C04': (['Magic'], 'rs_magic_hash_eq rs_magic_get_attacks_eq rs_rook_attacks_eq rs_bishop_attacks_eq rs_rook_magics_eq rs_bishop_magics_eq'.split()),
                   # module granularity matters: a module that fails to build fails all its theorems, so each property lists only
